@@ -47,12 +47,25 @@ ValidAt(ww, D, A, loc, k) ==      \* loc: function spatial dim -> index; any non
   LET d == DepthDimOf(D, A)
   IN At(A, [p \in 1..Len(A.dims) |-> IF A.dims[p] = d THEN k ELSE IF A.dims[p] \in DOMAIN loc THEN loc[A.dims[p]] ELSE 0]) # MISSING
 
-Names == {"Completed", "NormMatches", "InputUnmodified", "SignAsRequested", "OrderAsRequested", "BoundsFollow",
+Names == {"Completed", "DepthCoordinatesListed", "NormMatches", "InputUnmodified", "SignAsRequested", "OrderAsRequested", "BoundsFollow",
           "PhysDepthPreserved", "UnsetUntouched",
           "FloorValues", "DepthRemoved", "OthersUntouched", "GeometryUntouched"}
 
 Holds(name, ww, e) ==
   CASE name = "Completed" -> Ok(e)
+    [] name = "DepthCoordinatesListed" ->
+         \* the convention knows every depth coordinate of the dataset, and for a variable with a depth dimension names a
+         \* coordinate on that dimension (none for a variable without one; an ambiguity may be refused)
+         Is(e, "Touch") =>
+            /\ {e.obs.ok.names[k] : k \in 1..Len(e.obs.ok.names)} = {cur.depths[k].name : k \in 1..Len(cur.depths)}
+            /\ e.obs.ok.n = Len(cur.depths)
+            /\ \A m \in 1..Len(e.obs.ok.forvar) :
+                 LET fv == e.obs.ok.forvar[m]
+                     A == cur.vars[VarIx(cur, fv.var)]
+                     on == {cur.depths[k].name : k \in {k \in 1..Len(cur.depths) : cur.depths[k].dim \in Range1(A.dims)}}
+                 IN HasV(cur, fv.var) =>
+                      IF on = {} THEN fv.coord = ""
+                      ELSE (fv.coord \in on \/ (Cardinality(on) > 1 /\ fv.coord = ""))
     \* ---------------------------------------------------------------- C13
     [] name = "NormMatches" ->
          Is(e, "Normalize") =>
